@@ -47,6 +47,12 @@ def run_repo_tests_with_contracts(files, workdir, timeout=3600,
             lambda t: _run_one([t[1]], workdir, timeout, str(t[0]),
                                monitors),
             enumerate(files)))
+    # scratch file that test_mof_compiler.py leaves in the working tree
+    try:
+        os.remove(os.path.join(REPO_DIR, 'tests', 'unittest', 'pywbem',
+                               'test_mofRoundTripOutput.mof'))
+    except OSError:
+        pass
     for r in reps:
         if 'error' in r:
             return r
